@@ -10,23 +10,27 @@ package pql
 // ---------------------------------------------------------------- quoting
 
 //@ func pql.quoteIdentifier
-//@   use expr
+//@   use expr dialect
 //@   requires sb != nil
 //@   ensures @text: out(sb) == QI(name, old(out(sb)))
+//@   ensures @nobackslash: nbs(out(sb)) == nbs(old(out(sb)))
 //@   assigns out(sb)
 //@ loop 1
 //@   invariant -1 <= rangeindex && rangeindex < len(name)
 //@   invariant EscQ(name, 34, rangeindex + 1, out(sb)) == EscQ(name, 34, 0, OByte(old(out(sb)), 34))
+//@   invariant @nobackslash: nbs(out(sb)) == nbs(old(out(sb)))
 //@   decreases len(name) - rangeindex
 
 //@ func pql.quoteSQLString
-//@   use expr
+//@   use expr dialect
 //@   requires sb != nil
 //@   ensures @text: out(sb) == QS(s, old(out(sb)))
+//@   ensures @nobackslash: nbs(out(sb)) == nbs(old(out(sb)))
 //@   assigns out(sb)
 //@ loop 1
 //@   invariant -1 <= rangeindex && rangeindex < len(s)
 //@   invariant EscQ(s, 39, rangeindex + 1, out(sb)) == EscQ(s, 39, 0, OByte(old(out(sb)), 39))
+//@   invariant @nobackslash: nbs(out(sb)) == nbs(old(out(sb)))
 //@   decreases len(s) - rangeindex
 
 // ---------------------------------------------------------------- expressions
